@@ -89,7 +89,7 @@ func TestC10(t *testing.T) {
 	st.Assume("the shape predicate encodes the property text: field positions / range bounds single terms, lists >= 2 plain values, unary operators one operand, LIKE has a pattern on the right")
 	regress(t, st, "C10")
 	_ = activeFindings(st, "C10")
-	sc := streamCfg{fullLen: 3, reducedLen: 4, focusLen: 5, trees: cfg.N(20000, 1000000), strings: cfg.N(30000, 2000000), dfs: []string{"", "dflt"}}
+	sc := streamCfg{fullLen: 3, reducedLen: 4, focusLen: 5, trees: cfg.N(12000, 1000000), strings: cfg.N(20000, 2000000), dfs: []string{"", "dflt"}}
 	if cfg.Thorough() {
 		sc.fullLen, sc.reducedLen, sc.focusLen = 4, 5, 7
 	}
